@@ -39,6 +39,11 @@ def make_specs(ctx: Ctx, n):
             if mm is not None:
                 specs.append(mk_pair(len(specs), "always-true-filter", m, mm, label=label))
         else:
+            if rng.random() < 0.6 and not m["meta"]["feat"].get("undefined_outside"):
+                # utility undefined (NaN / +inf) on the excluded combinations: the filter formulation never evaluates them,
+                # the constraint formulation evaluates and masks them
+                gen.undefined_outside(rng, m)
+                label += "; utility undefined outside the restriction"
             mm = laws.filter_to_constraint(m)
             if mm is not None and m["meta"]["admitted"] and all(len(a) == len(m["meta"]["admitted"][0]) for a in m["meta"]["admitted"]):
                 specs.append(mk_pair(len(specs), "filter-as-constraint", mm, m, label=label))
